@@ -32,6 +32,9 @@ type C07Req struct {
 	// Rush: the request is issued without waiting for the system to settle after the previous
 	// one, so the asynchronous cleanup of a plugin dropped there races with it.
 	Rush bool `json:"rush,omitempty"`
+	// Also: a second plugin (position) whose connection is killed before the request, so that two
+	// plugins are found dead in the same request.
+	Also *int `json:"also,omitempty"`
 }
 
 type C07W struct {
@@ -100,7 +103,13 @@ func c07Gen(rng *rand.Rand, conf string, idx int) any {
 		} else if conf == "healthy" && rng.Intn(4) == 0 {
 			rq.Fault = &C07Fault{Victim: rng.Intn(n), Kind: "error", When: "during"}
 		}
-		if i > 0 && conf != "healthy" && (rq.Fault == nil || rq.Fault.When == "during") && rng.Intn(3) == 0 {
+		if conf == "faults" && rq.Fault != nil && n >= 2 && rng.Intn(4) == 0 {
+			v := rng.Intn(n)
+			if v != rq.Fault.Victim {
+				rq.Also = &v
+			}
+		}
+		if i > 0 && conf != "healthy" && rq.Also == nil && (rq.Fault == nil || rq.Fault.When == "during") && rng.Intn(3) == 0 {
 			rq.Rush = true
 		}
 		w.Reqs = append(w.Reqs, rq)
@@ -252,6 +261,11 @@ func c07Exec(t *testing.T, w *C07W, sc SchedCfg, base *c07Transcript, rec *c07Tr
 				if rec != nil {
 					a, b := snap()
 					rec.r2p, rec.p2r = append(rec.r2p, a), append(rec.p2r, b)
+				}
+				if rq.Also != nil {
+					plugs[*rq.Also].Conn.Kill(false)
+					e.S.Probe("C07.second-plugin-killed-before-the-same-request")
+					e.S.Settle("caller")
 				}
 				f := rq.Fault
 				if f != nil && (f.When == "before" || f.When == "offset") {
@@ -421,6 +435,9 @@ func c07Oracle(res *Result, w *C07W, h *H1, plugs []*Plug, outs []*c07Out, fired
 			} else if unsure[k] {
 				status[k] = stMaybe
 			}
+		}
+		if rq.Also != nil && !dead[*rq.Also] {
+			status[*rq.Also], noEntry[*rq.Also] = stExcluded, true
 		}
 		f := rq.Fault
 		veto := -1
@@ -596,6 +613,10 @@ func c07Oracle(res *Result, w *C07W, h *H1, plugs []*Plug, outs []*c07Out, fired
 			}
 		}
 		// bookkeeping for later requests
+		if rq.Also != nil && !dead[*rq.Also] {
+			dead[*rq.Also] = true
+			diedAt[*rq.Also] = i
+		}
 		if f != nil && !dead[f.Victim] {
 			_, didFire := fired[i]
 			switch {
@@ -658,6 +679,9 @@ func c07Shrink(wl any) []any {
 			if r.Fault != nil && r.Fault.Victim == k {
 				used = true
 			}
+			if r.Also != nil {
+				used = true
+			}
 		}
 		if !used && len(w.Plugins) > 1 {
 			c := jsonClone(w)
@@ -671,7 +695,12 @@ func c07Shrink(wl any) []any {
 		}
 	}
 	for i := range w.Reqs {
-		if w.Reqs[i].Fault != nil {
+		if w.Reqs[i].Also != nil {
+			c := jsonClone(w)
+			c.Reqs[i].Also = nil
+			out = append(out, c)
+		}
+		if w.Reqs[i].Fault != nil && w.Reqs[i].Also == nil {
 			c := jsonClone(w)
 			c.Reqs[i].Fault = nil
 			out = append(out, c)
